@@ -45,7 +45,7 @@ def check_into(inst, I, ctx, path, item):
         ctx.ok('into-cast', inst)
     else:
         ctx.violation('into-cast', inst, item, 'returns %s, required the discriminant of its argument (`self as %s`)' % (' | '.join(show(a[1]) for a in alts), inst.repr),
-                      key='C11/into-cast/%s' % item, construct=GEN_FILE[item])
+                      key='%s/into-cast/%s' % (ctx.prop, item), construct=GEN_FILE[item])
 
 def main(tier, seed, t0):
     st, d = runner.stage_inst(tier, seed)
